@@ -180,14 +180,18 @@ theorem C02_every_emission_legal (ctx : Ctx) (content word : Str) (arg : Option 
     environment, the files on disk — is an IGNORE line (or blank), then for EVERY depth, context and state every output line
     of a successful run is legal -/
 theorem C02_exec_output_legal (d : Nat) (nodes : List Node) (ctx : Ctx) (st : St) (o : Out)
-    (hnodes : allLinesL noIgnoreLine nodes = true) (hst : StOk noIgnoreLine st) (hfs : FSOk noIgnoreLine ctx.fs)
-    (h : exec d nodes ctx st = .ok o) : ∀ l ∈ o.out, legalLine l = true :=
-  (exec_hereditary hspec_legal d nodes ctx st hnodes hst hfs).outs o h
+    (hnodes : allLinesL noIgnoreLine nodes = true) (hst : ∀ c ∈ st.codes, allLinesL noIgnoreLine c = true)
+    (hfs : ∀ p text nodes, ctx.fs.read p = some text → parseLines (splitLines text) = .ok nodes → allLinesL noIgnoreLine nodes = true)
+    (h : exec d nodes ctx st = .ok o) : ∀ l ∈ o.out, legalLine l = true := by
+  have cv : ∀ c, allCmdsL niq c = allLinesL noIgnoreLine c := fun c => allCmdsL_text noIgnoreLine c
+  exact (exec_hereditary hspec_legal d nodes ctx st (by rw [cv]; exact hnodes) (fun c hc => by rw [cv]; exact hst c hc)
+    (fun p text nodes hr hp => by rw [cv]; exact hfs p text nodes hr hp)).outs o h
 
 /-- `Compiler.compile`: a program without IGNORE lines (in the source and in the files it can import) compiles to legal lines only -/
 theorem C02_compile_output_legal (opts : Opts) (fs : FS) (file : Option Path) (src : Source)
     (out : List Str) (warns : List Warn) (prints : List Print) (vars : List (Str × Val))
-    (hsrc : ∀ nodes, prepare src = .ok nodes → allLinesL noIgnoreLine nodes = true) (hfs : FSOk noIgnoreLine fs)
+    (hsrc : ∀ nodes, prepare src = .ok nodes → allLinesL noIgnoreLine nodes = true)
+    (hfs : ∀ p text nodes, fs.read p = some text → parseLines (splitLines text) = .ok nodes → allLinesL noIgnoreLine nodes = true)
     (h : compile opts fs file src = .ok out warns prints vars) : ∀ l ∈ out, legalLine l = true := by
   unfold compile at h
   split at h
